@@ -513,8 +513,16 @@ func genRenamerCases(r *Rng, n int, st *Stats, cf *caseSink) {
 			var top []int
 			var nested []*gscope
 			nestedReal := map[uint32][]*js_ast.Scope{}
+			// a wrapped file's module scope is renamed concurrently with the other files: the files
+			// must then touch disjoint symbols (no links across files), as in the linker
+			crossLinks := false
+			for _, sy := range w.syms {
+				if sy.link >= 0 && w.syms[sy.link].src != sy.src {
+					crossLinks = true
+				}
+			}
 			for si, m := range w.modules {
-				if r.Chance(20) && len(m.members) > 0 {
+				if !crossLinks && r.Chance(20) && len(m.members) > 0 {
 					// "wrapped" file: only one top-level symbol, the module scope itself is nested
 					id := m.members[r.Intn(len(m.members))]
 					top = append(top, id)
